@@ -1,5 +1,6 @@
 """C19 — functools.partial objects get the signature Python actually enforces."""
 import functools
+import inspect
 import itertools
 import warnings
 
@@ -169,6 +170,10 @@ def w_dflt(tag, *args, func=other_default, **kwargs):
     return func(*args, **kwargs)
 def w_dflt_pos(tag, func=other_default, *args, **kwargs):
     return func(*args, **kwargs)
+def callee_g(x, y, *, z=1):
+    return ('g', x, y, z)
+def w_glob(a, *args, **kwargs):
+    return callee_g(*args, **kwargs)
 class Plain(object):
     def run(self, wrapped, *args, **kwargs):
         return wrapped(*args, **kwargs)
@@ -192,6 +197,24 @@ def discovery_checks(ctx, rep, sigs):
         spec = importlib.util.spec_from_file_location('c19progs', path)
         mod = importlib.util.module_from_spec(spec)
         spec.loader.exec_module(mod)
+        # a partial that binds NO positional over a wrapper whose callee needs no bound argument to be
+        # resolved (a global): discovery still looks through it, and the bound keyword makes the
+        # following parameters keyword-only and removes *args
+        for label, pg, want in (("partial(w_glob, y=2)", functools.partial(mod.w_glob, y=2), '(a, x, *, z=1, y=2)'),
+                                ("partial(w_glob)", functools.partial(mod.w_glob), '(a, x, y, *, z=1)'),
+                                ("partial(w_glob, z=5)", functools.partial(mod.w_glob, z=5), '(a, x, y, *, z=5)')):
+            n += 1
+            try:
+                gotg = sigtools.signature(pg)
+            except Exception as e:  # noqa: BLE001
+                rep.violation('C19:discover-global', 'sigtools.signature(%s) raised %s' % (label, classify_exc(e)), {'kind': 'discover-global'})
+                continue
+            ok_shape = [(q.name, q.kind.name, q.default is not q.empty) for q in gotg.parameters.values()]
+            exp_shape = [(q.name, q.kind.name, q.default is not q.empty)
+                         for q in inspect.signature(eval('lambda ' + want[1:-1].replace('/, ', '') + ': None')).parameters.values()]
+            if sorted(ok_shape) != sorted(exp_shape) or [x for x in ok_shape if x[1] != 'KEYWORD_ONLY'] != [x for x in exp_shape if x[1] != 'KEYWORD_ONLY']:
+                rep.violation('C19:discover-global', '%s: discovered %s, expected %s (w_glob(a, *args, **kwargs) forwards to the global callee_g(x, y, *, z=1))'
+                              % (label, gotg, want), {'kind': 'discover-global'})
         for ps in sigs:
             d = mk_desc(ps, 100)
             inner = real_function(d, 'inner')
